@@ -220,6 +220,12 @@ type descriptor struct {
 	Script  []drive.Stim `json:"script,omitempty"`
 	K       int          `json:"k"` // cancel when this many traces have been received (0 = before start)
 	Perturb uint64       `json:"perturb"`
+	// Split: the instance is started with a context that does not descend from
+	// the context it was constructed with. At position K only the CONSTRUCTION
+	// context is cancelled; the script goes on (what the instance still does is
+	// not judged, only that it comes to rest); at the end the run context is
+	// cancelled too and everything must be gone as usual.
+	Split bool `json:"split,omitempty"`
 }
 
 type result struct {
@@ -264,7 +270,7 @@ func run(d descriptor, k int) *result {
 	}
 	prog := &gen.Program{G: e.G, DefaultLang: "expr"}
 	tr := quiesce.Begin()
-	in, err := drive.New(prog.XML(), drive.Options{Vars: e.Vars, Tracker: tr, MockClock: e.Timer})
+	in, err := drive.New(prog.XML(), drive.Options{Vars: e.Vars, Tracker: tr, MockClock: e.Timer, SplitCtx: d.Split})
 	if err != nil {
 		r.Symptom, r.Detail = "construct", err.Error()
 		return r
@@ -276,7 +282,9 @@ func run(d descriptor, k int) *result {
 		if k > 0 && idx+1 == k && !cancelled.Load() {
 			cancelIdx.Store(int64(idx))
 			in.Cancel()
-			cancelled.Store(true)
+			if !d.Split {
+				cancelled.Store(true)
+			}
 		}
 	}
 	finish := func(sym, det string, gs []quiesce.G) *result {
@@ -287,11 +295,14 @@ func run(d descriptor, k int) *result {
 		r.Traces = drive.DescribeAll(in.Traces())
 		// do not leave a live instance behind
 		in.Cancel()
+		in.CancelRun()
 		return r
 	}
 	if k == 0 {
 		in.Cancel()
-		cancelled.Store(true)
+		if !d.Split {
+			cancelled.Store(true)
+		}
 	}
 	var calls sync.WaitGroup
 	calls.Add(1)
@@ -309,11 +320,12 @@ func run(d descriptor, k int) *result {
 	for _, s := range e.Script {
 		gs, err := tr.Wait(ceiling)
 		if err != nil {
-			if cancelled.Load() {
+			if cancelled.Load() || (d.Split && cancelIdx.Load() >= 0) {
 				return finish("busy", "after cancel the instance's goroutines do not come to rest (spinning): "+shortBusy(err), gs)
 			}
 			r.Inconcl = err.Error()
 			in.Cancel()
+			in.CancelRun()
 			return r
 		}
 		if cancelled.Load() {
@@ -377,11 +389,12 @@ func run(d descriptor, k int) *result {
 	}
 	gs, err := tr.Wait(ceiling)
 	if err != nil {
-		if cancelled.Load() {
+		if cancelled.Load() || (d.Split && (cancelIdx.Load() >= 0 || k == 0)) {
 			return finish("busy", "after cancel the instance's goroutines do not come to rest (spinning): "+shortBusy(err), gs)
 		}
 		r.Inconcl = err.Error()
 		in.Cancel()
+		in.CancelRun()
 		return r
 	}
 	r.Total = in.TraceCount()
@@ -393,7 +406,9 @@ func run(d descriptor, k int) *result {
 	}
 	if !cancelled.Load() {
 		// the run ended before position k was reached: cancel now (end-of-life cancellation)
+		// (split contexts: the construction context may be gone already; now the run context goes too)
 		in.Cancel()
+		in.CancelRun()
 		cancelled.Store(true)
 	}
 	// after cancel: WaitUntilComplete must return, tracer terminate, goroutines exit
@@ -478,7 +493,11 @@ func one(t interface{ Fatalf(string, ...any) }, test string, d descriptor, total
 		name = corpus()[d.Entry].Name
 	}
 	nt := d.K > 0 && d.K < total && r.NodesStarted
-	rec.Case(test, hash, nt, []string{"program=" + name}, map[string]any{"case": d, "program": name, "tracesBeforeCancelOf": total})
+	cls := []string{"program=" + name}
+	if d.Split {
+		cls = append(cls, "constructionContextCancelledFirst")
+	}
+	rec.Case(test, hash, nt, cls, map[string]any{"case": d, "program": name, "tracesBeforeCancelOf": total})
 	if r.Symptom == "" {
 		return
 	}
@@ -530,7 +549,8 @@ func TestC07Points(t *testing.T) {
 	}
 	rapid.Check(t, func(rt *rapid.T) {
 		i := rapid.IntRange(0, len(cp)-1).Draw(rt, "entry")
-		d := descriptor{Entry: i, K: rapid.IntRange(0, totals[i]+1).Draw(rt, "k"), Perturb: uint64(rapid.IntRange(0, 200).Draw(rt, "perturb"))}
+		d := descriptor{Entry: i, K: rapid.IntRange(0, totals[i]+1).Draw(rt, "k"), Perturb: uint64(rapid.IntRange(0, 200).Draw(rt, "perturb")),
+			Split: rapid.IntRange(0, 3).Draw(rt, "splitContexts") == 0}
 		one(rt, "TestC07Points", d, totals[i])
 	})
 }
@@ -554,6 +574,7 @@ func TestC07Generated(t *testing.T) {
 			rt.Fatalf("inconclusive: %s", dry.Inconcl)
 		}
 		d.K = rapid.IntRange(0, dry.Total+1).Draw(rt, "k")
+		d.Split = rapid.IntRange(0, 3).Draw(rt, "splitContexts") == 0
 		one(rt, "TestC07Generated", d, dry.Total)
 	})
 }
